@@ -65,7 +65,9 @@ class TWorld:
         self.family, self.shape = family, shape
         self.clock = vclock.Clock(start=T0)
         # history records are written by helper threads: inside the call here (they are not what is examined)
-        instrument.patch_threading(["pynenc.state_backend.base_state_backend"])
+        # the memory store guards its maps with RLocks: scheduler-aware ones, or an actor parked inside the store
+        # (line points) would block the others for ever
+        instrument.patch_threading(["pynenc.state_backend.base_state_backend", "pynenc.trigger.mem_trigger"])
         sched.SThread.policy = staticmethod(lambda t: "inline")  # type: ignore[assignment]
         self.app = world.make_app(family, app_id=f"trg_{family}")
         for comp in ("orchestrator", "broker", "state_backend", "trigger", "client_data_store"):
@@ -129,6 +131,9 @@ class TWorld:
     def report(self, code: str) -> None:
         n = self.nrep[code] = self.nrep.get(code, 0) + 1
         if code in ("a", "b"):
+            # announced before the call (the occurrence may become visible to a concurrent loop at any point inside
+            # it), reported after it (from then on every iteration that starts must serve it)
+            self.events.append({"e": "announce", "c": code, "n": n})
             self.app.trigger.emit_event("ev" + code, {"c": code, "n": n})
             self.events.append({"e": "report", "c": code, "n": n})
             return
@@ -145,11 +150,13 @@ class TWorld:
         # which occurrences this produced: success -> status + result; failure -> exception
         if code == "x":
             self.inv_occ[f"exc:{inv.invocation_id}"] = f"x{n}"
+            self.events.append({"e": "announce", "c": "x", "n": n})
             self.events.append({"e": "report", "c": "x", "n": n})
         else:
             for c, pre in (("s", "status"), ("r", "result")):
                 k = self.nrep[c] = self.nrep.get(c, 0) + (0 if c == code else 1)
                 self.inv_occ[f"{pre}:{inv.invocation_id}"] = f"{c}{k}"
+                self.events.append({"e": "announce", "c": c, "n": k})
                 self.events.append({"e": "report", "c": c, "n": k})
 
     # ---- the loop -------------------------------------------------------------------------
@@ -205,6 +212,29 @@ class TWorld:
                 "only_and": only_and, "cron_launches": ncron, "cron_ticks": int((self.clock.peek() - T0) // 60) + 1}
 
 
+def _line_tracer(frame: Any, event: str, arg: Any) -> Any:
+    """Memory family: every source line of the store (mem_trigger.py) is a preemption point."""
+    if event != "call" or not frame.f_code.co_filename.endswith("mem_trigger.py"):
+        return None
+
+    def local(frame: Any, event: str, arg: Any) -> Any:
+        if event == "line" and not instrument.is_quiet():
+            sched.point("line", f"{frame.f_code.co_name}:{frame.f_lineno}")
+        return local
+    return local
+
+
+def _traced(fn: Any) -> Any:
+    def run() -> None:
+        import sys
+        sys.settrace(_line_tracer)
+        try:
+            fn()
+        finally:
+            sys.settrace(None)
+    return run
+
+
 def run_history(family: str, shape: str, hist: list[tuple], policy: Any = None) -> tuple[list[dict[str, Any]], dict[str, Any]]:
     """hist: ("report", code) | ("loop", actor) | ("advance", seconds) | ("par", [actor specs])
     actor spec: ("loop", name, iterations) | ("reporter", name, [codes])"""
@@ -223,14 +253,14 @@ def run_history(family: str, shape: str, hist: list[tuple], policy: Any = None) 
             elif h[0] == "advance":
                 W.clock.advance(h[1])
             elif h[0] == "par":
-                with sched.Scheduler({"call", "sql"}) as s:
+                with sched.Scheduler({"call", "sql", "line"}) as s:
                     if family == "sql":
                         instrument.register_probes(s)
                     for spec in h[1]:
-                        if spec[0] == "loop":
-                            s.spawn(spec[1], W.loop(spec[1], spec[2]), role="loop")
-                        else:
-                            s.spawn(spec[1], W.reporter(spec[2]), role="reporter")
+                        fn = W.loop(spec[1], spec[2]) if spec[0] == "loop" else W.reporter(spec[2])
+                        if family == "mem":
+                            fn = _traced(fn)
+                        s.spawn(spec[1], fn, role="loop" if spec[0] == "loop" else "reporter")
                     s.run(policy, max_steps=6000)
                     info["points"] += len(s.trace)
                     errs = {a.name: repr(a.error) for a in s.actors.values() if a.error is not None}
@@ -457,7 +487,7 @@ def run(ctx: Ctx) -> None:
             nsh = 4 if ctx.quick else 12
             for k in range(nsh):
                 jobs.append({"mode": "dfs", "family": fam, "shape": shape, "history": h, "shard": (k, nsh),
-                             "max_preemptions": 2 if ctx.quick else 3, "max_executions": 60 if ctx.quick else 3000})
+                             "max_preemptions": 2 if ctx.quick else 3, "max_executions": 120 if ctx.quick else 3000})
             ns = 12 if ctx.quick else 240
             for k in range(0, ns, 6):
                 jobs.append({"mode": "seeds", "family": fam, "shape": shape, "history": h,
